@@ -361,7 +361,7 @@ class Parameters:
         upper_bounds = []
 
         for parameter in self.all():
-            if not exclude_non_vary or parameter.vary:
+            if not exclude_non_vary or (parameter.vary and parameter.expression is None):
                 labels.append(parameter.label)
                 value, minimum, maximum = parameter.get_value_and_bounds_for_optimization()
                 values.append(value)
